@@ -197,8 +197,26 @@ def run_unit(prop, unit, tier, out, known, workdir):
                       'timeout_s': sc_.get('timeout_s', unit.get('timeout_s', 900)), 'mem_gb': unit.get('mem_gb', 10)})
     jobs = int(os.environ.get('VF_JOBS', str(os.cpu_count() or 4)))
     t0 = time.time()
-    with ProcessPoolExecutor(max_workers=jobs) as ex:
-        results = list(ex.map(run_scenario, specs))
+    from concurrent.futures import ThreadPoolExecutor
+
+    def one(spec):
+        # every scenario runs in its own interpreter process: a solver crash / memory-out only loses that scenario
+        wd = os.path.join(workdir, spec['name']); os.makedirs(wd, exist_ok=True)
+        sf = os.path.join(wd, 'spec.json'); rf = os.path.join(wd, 'result.json')
+        json.dump(spec, open(sf, 'w'))
+        try:
+            p = subprocess.run([sys.executable, os.path.abspath(__file__), '--spec', sf, '--out', rf], stdout=subprocess.PIPE, stderr=subprocess.PIPE,
+                               timeout=spec['timeout_s'] + 120)
+            if os.path.exists(rf):
+                return json.load(open(rf))
+            return {'name': spec['name'], 'defines': spec['defines'], 'nthreads': spec['nthreads'], 'violations': [], 'status': 'crashed',
+                    'undecided': ['scenario process ended without a result (rc=%s): %s' % (p.returncode, p.stderr.decode('utf8', 'replace')[-300:])]}
+        except subprocess.TimeoutExpired:
+            return {'name': spec['name'], 'defines': spec['defines'], 'nthreads': spec['nthreads'], 'violations': [], 'status': 'timeout',
+                    'undecided': ['not decided within %d s' % spec['timeout_s']]}
+
+    with ThreadPoolExecutor(max_workers=jobs) as ex:
+        results = list(ex.map(one, specs))
     urec = {'name': unit['name'], 'engine': 'E2 irsym+mm+z3 (%s)' % unit.get('mode', 'sc'), 'tu': unit['tu'], 'scenarios': len(specs),
             'space': unit.get('space', ''), 'bounds': unit.get('bounds', ''), 'outside': unit.get('outside', ''), 'wall_s': round(time.time() - t0, 1),
             'per_scenario': []}
@@ -244,6 +262,12 @@ def run_unit(prop, unit, tier, out, known, workdir):
                                      % (unit['name'], r['name'], v['assertion'], v.get('how'), rpath))
     cov['units'].append(urec)
 
+
+if __name__ == '__main__' and len(sys.argv) > 1 and sys.argv[1] == '--spec':
+    spec = json.load(open(sys.argv[2]))
+    r = run_scenario(spec)
+    json.dump(r, open(sys.argv[4], 'w'), default=str)
+    sys.exit(0)
 
 if __name__ == '__main__':
     cpp = sys.argv[1]; n = int(sys.argv[2])
